@@ -568,6 +568,13 @@ def gen_directive(rng, stage, tag, action=None):
         tloc, tstyle = _loc_style(rng, side, stage, 'tgt', rel_tgt)
         tgt = {'loc': tloc, 'style': tstyle,
                'rel': _name(rng, 't' + tag, flavour)}
+        if fault is None and tstyle == 'schema' and kind == 'file' and \
+                tag.endswith('0') and rng.random() < 0.25:
+            # a target FILE which is named like a directory that exists on
+            # the host (tmp, usr ...): `task:///tmp` is `<task sandbox>/tmp`,
+            # whatever the host's root directory contains
+            tgt['rel'] = rng.choice(['tmp', 'usr', 'var', 'etc', 'opt'])
+            tgt['hostdir_name'] = True
         if fault == 'blocked':
             tgt['rel'] = 'blk_%s/%s'   % (tag, os.path.basename(tgt['rel']))
         elif fault == 'blocked-nested':
